@@ -149,7 +149,7 @@ func runC15(p *Program, r *Report) {
 				bad := false
 				reach := reachableFromEdge(f, pc.holds, nil)
 				for _, s := range errReturnSites(f) {
-					if isNilConst(s.val) && reach[s.ret.Block()] {
+					if isNilConst(s.val) && s.reachedIn(reach) {
 						bad = true
 					}
 				}
@@ -161,7 +161,7 @@ func runC15(p *Program, r *Report) {
 				bad := false
 				reach := reachableFromEdge(f, rc.holds, nil)
 				for _, s := range errReturnSites(f) {
-					if isNilConst(s.val) && reach[s.ret.Block()] {
+					if isNilConst(s.val) && s.reachedIn(reach) {
 						bad = true
 					}
 				}
